@@ -15,6 +15,9 @@ from . import reftok
 from .seams import Outcome
 
 
+_NEAR_CACHE = {}
+
+
 def ev_pred(p, toks, ctx):
     k = p['k']
     if k == 'true':
@@ -37,6 +40,23 @@ def ev_pred(p, toks, ctx):
         return well_formed(toks)
     if k == 'golden':
         return reftok.digest(toks) == p['dig']
+    if k == 'near':
+        # the candidate stays in a small neighbourhood of the original input:
+        # token multisets differ by at most m tokens (an adversary that keeps
+        # the structure and accepts every small rewrite in either direction)
+        import collections
+        a = ctx.get('cnt')
+        if a is None:
+            a = ctx['cnt'] = collections.Counter(toks)
+        b = _NEAR_CACHE.get(id(p))
+        if b is None:
+            if len(_NEAR_CACHE) > 64:
+                _NEAR_CACHE.clear()
+            b = _NEAR_CACHE[id(p)] = collections.Counter(p['toks'])
+        if abs(len(toks) - len(p['toks'])) > p.get('len_tol', 10**9):
+            return False
+        d = sum((a - b).values()) + sum((b - a).values())
+        return d <= p['m']
     if k == 'len_ge':
         return len(toks) >= p['n']
     if k == 'and':
